@@ -9,19 +9,19 @@ package command
 // watchdog: the scan is cancelled only after the engine signalled completion AND a timer of exactly the
 // configured exit delay, armed after that signal, has fired.
 //@ func startScanEngine$2
-//@   props C16 C08 C12
+//@   props C16 C08 C12 C13 C14
 //@   observe time.After, cancel
 //@   entry row delay: [recv done as (_, _) ; call time.After(conf.exitDelay) as (t) ; recv t as (_, _) ; call cancel()] -> exit
 
 // result logging goroutine: LogResults on the derived context and the engine's result channel, then Done
 //@ func startScanEngine$1
-//@   props C16 C08 C12
+//@   props C16 C08 C12 C13 C14
 //@   observe LogResults, Results, (*sync.WaitGroup).Done
 //@   entry row log: [call Results(engine) as (rc) ; call LogResults(logger, ctx, rc) ; call Done(_)] -> exit
 
 // error drain: every error of the stream is logged once; returns only when the stream is closed
 //@ func startScanEngine$3
-//@   props C08 C12
+//@   props C08 C12 C13 C14
 //@   observe Error, (*sync.WaitGroup).Done
 //@   loop 0 row closed: [recv errc as (e, false) ; call Done(_)] -> exit
 //@   loop 0 row report: [recv errc as (e, true) ; call Error(logger, e)] -> continue
@@ -30,7 +30,7 @@ package command
 // done channel and the derived cancel; returns only after Wait (logger returned and error stream closed);
 // the deferred cancel runs after Wait.
 //@ func startScanEngine
-//@   props C16 C08 C12
+//@   props C16 C08 C12 C13 C14
 //@   observe context.WithCancel, Start, (*sync.WaitGroup).Add, (*sync.WaitGroup).Wait, cancel
 //@   entry row scan: [call context.WithCancel(ctx) as (c2, cf) ; call Add(_, 1) ; go startScanEngine$1{logger: bind_lg, ctx: bind_c1, engine: bind_en} ;
 //@                    call Start(engine, c2, bind_rng) as (done, errc) ; go startScanEngine$2{cancel: bind_cf2, done: bind_dn, conf: bind_cfg} ;
@@ -86,7 +86,7 @@ package command
 // application scans: with rateCount > 0 the scanner is wrapped by a limiter built from exactly
 // (rateCount, Per(rateWindow)); the engine gets that scanner, the target generator and the configured worker count
 //@ func (*genericScanCmdOpts).newScanEngine
-//@   props C15 C08
+//@   props C15 C08 C01
 //@   observe ratelimit.Per, ratelimit.New
 //@   opaque scan.NewRateLimitScanner, scan.NewResultChan, newIPPortGenerator, scan.WithScanWorkerCount, scan.NewScanEngine
 //@   entry row unlimited: [call scan.NewResultChan(ctx, _) as (rc) ; call newIPPortGenerator(o) as (gen) ; call scan.WithScanWorkerCount(o.workers) as (wo) ; call scan.NewScanEngine(gen, scanner, rc, bind_os) as (eng)]
@@ -100,7 +100,7 @@ package command
 // otherwise the network ParseIPNet yields for that text is inserted exactly once (no other filtering); the first
 // error aborts with that error; the container returned is the one that received the inserts.
 //@ func parseExcludeFile
-//@   props C02 C18
+//@   props C02 C18 C01
 //@   observe openFile, (*bufio.Scanner).Scan, (*bufio.Scanner).Text, strings.Index, strings.Trim, ParseIPNet, cidranger.NewBasicRangerEntry, Insert, Close, cidranger.NewPCTrieRanger
 //@   entry row noopen: [call openFile() as (in, e)] when e != nil && ret1 == e -> exit
 //@   entry row open:   [call openFile() as (in, e) ; call cidranger.NewPCTrieRanger() as (rg)] when e == nil -> loop 0
@@ -241,7 +241,7 @@ package command
 // arp: exactly one argument, parsed by ParseIPNet (C02); range from getScanRange of THAT subnet (C17); no source MAC =>
 // errSrcMAC, nothing is started; filter = arp.BPFFilter; rate and exit delay from the flags; logger and range as built
 //@ func newARPCmd$1
-//@   props C03 C15 C16 C17 C02
+//@   props C03 C15 C16 C17 C02 C01 C19
 //@   observe ip.ParseIPNet, getScanRange, startPacketScanEngine
 //@   opaque (*packetScanCmdOpts).parseRawOptions, (*arpCmdOpts).getLogger, (*arpCmdOpts).newARPScanMethod
 //@   entry row usage:   [] when len(args) != 1 && ret != nil -> exit
@@ -263,7 +263,7 @@ package command
 // newICMPCmd$1: options parsed first; scan name "icmp"; method from newICMPScanMethod; filter = icmp.BPFFilter (replies to both scans are ICMP);
 // rate, VPN mode, logger, range and exit delay exactly as parsed
 //@ func newICMPCmd$1
-//@   props C03 C15 C16 C17
+//@   props C03 C15 C16 C17 C01
 //@   observe startPacketScanEngine
 //@   opaque (*icmpCmdOpts).parseRawOptions, (*ipScanCmdOpts).parseOptions, (*icmpCmdOpts).newICMPScanMethod
 //@   entry row badraw: [call parseRawOptions(_) as (e)] when e != nil && ret == e -> exit
@@ -390,7 +390,7 @@ package command
 //@                           && cfg.scanRange.DstSubnet == o.scanRange.DstSubnet && cfg.scanRange.Interface == o.scanRange.Interface && cfg.scanRange.SrcIP == o.scanRange.SrcIP
 //@                           && cfg.scanRange.SrcMAC == o.scanRange.SrcMAC && cfg.scanRange.Ports == o.scanRange.Ports) -> exit
 //@ func newTCPSYNCmd$1
-//@   props C03 C16
+//@   props C03 C16 C01
 //@   observe startScan
 //@   opaque (*ipPortScanCmdOpts).parseRawOptions
 //@   entry row badraw: [call parseRawOptions(_) as (e)] when e != nil && ret == e -> exit
@@ -424,19 +424,19 @@ package command
 // engine construction of the application scans: the scanner gets the configured timeouts / protocol, the engine is
 // built by newScanEngine around exactly that scanner
 //@ func (*socksCmdOpts).newSOCKSScanEngine
-//@   props C09 C08
+//@   props C09 C08 C01 C15
 //@   observe newScanEngine
 //@   opaque socks5.NewScanner, socks5.WithDialTimeout, socks5.WithDataTimeout
 //@   entry row build: [call socks5.WithDialTimeout(o.timeout) as (o1) ; call socks5.WithDataTimeout(o.timeout) as (o2) ; call socks5.NewScanner(bind_os) as (sc) ; call newScanEngine(_, ctx, bind_s2) as (en)]
 //@                       when len(os) == 2 && os[0] == o1 && os[1] == o2 && isptr(s2, socks5.Scanner) && asptr(s2, socks5.Scanner) == sc && isptr(ret, scan.GenericEngine) && asptr(ret, scan.GenericEngine) == en -> exit
 //@ func (*dockerCmdOpts).newDockerScanEngine
-//@   props C10 C08
+//@   props C10 C08 C01 C15
 //@   observe newScanEngine
 //@   opaque docker.NewScanner, docker.WithDataTimeout
 //@   entry row build: [call docker.WithDataTimeout(o.timeout) as (o1) ; call docker.NewScanner(o.proto, bind_os) as (sc) ; call newScanEngine(_, ctx, bind_s2) as (en)]
 //@                       when len(os) == 1 && os[0] == o1 && isptr(s2, docker.Scanner) && asptr(s2, docker.Scanner) == sc && isptr(ret, scan.GenericEngine) && asptr(ret, scan.GenericEngine) == en -> exit
 //@ func (*elasticCmdOpts).newElasticScanEngine
-//@   props C10 C08
+//@   props C10 C08 C01 C15
 //@   observe newScanEngine
 //@   opaque elastic.NewScanner, elastic.WithDataTimeout
 //@   entry row build: [call elastic.WithDataTimeout(o.timeout) as (o1) ; call elastic.NewScanner(o.proto, bind_os) as (sc) ; call newScanEngine(_, ctx, bind_s2) as (en)]
@@ -518,7 +518,7 @@ package command
 // newSocksCmd$1: options, range and logger first; the engine built by newSOCKSScanEngine; startScanEngine gets that engine and a
 // configuration carrying this logger, this range and the --exit-delay flag
 //@ func newSocksCmd$1
-//@   props C16 C08 C09
+//@   props C16 C08 C09 C01 C15
 //@   observe startScanEngine
 //@   opaque (*genericScanCmdOpts).parseRawOptions, (*genericScanCmdOpts).parseScanRange, (*genericScanCmdOpts).getLogger, (*socksCmdOpts).newSOCKSScanEngine
 //@   entry row badraw: [call parseRawOptions(_) as (e)] when e != nil && ret == e -> exit
@@ -531,7 +531,7 @@ package command
 // newDockerCmd$1: options, range and logger first; the engine built by newDockerScanEngine; startScanEngine gets that engine and a
 // configuration carrying this logger, this range and the --exit-delay flag
 //@ func newDockerCmd$1
-//@   props C16 C08 C10
+//@   props C16 C08 C10 C01 C15
 //@   observe startScanEngine
 //@   opaque (*dockerCmdOpts).parseRawOptions, (*genericScanCmdOpts).parseScanRange, (*genericScanCmdOpts).getLogger, (*dockerCmdOpts).newDockerScanEngine
 //@   entry row badraw: [call parseRawOptions(_) as (e)] when e != nil && ret == e -> exit
@@ -544,7 +544,7 @@ package command
 // newElasticCmd$1: options, range and logger first; the engine built by newElasticScanEngine; startScanEngine gets that engine and a
 // configuration carrying this logger, this range and the --exit-delay flag
 //@ func newElasticCmd$1
-//@   props C16 C08 C10
+//@   props C16 C08 C10 C01 C15
 //@   observe startScanEngine
 //@   opaque (*elasticCmdOpts).parseRawOptions, (*genericScanCmdOpts).parseScanRange, (*genericScanCmdOpts).getLogger, (*elasticCmdOpts).newElasticScanEngine
 //@   entry row badraw: [call parseRawOptions(_) as (e)] when e != nil && ret == e -> exit
